@@ -425,7 +425,7 @@ class Sched:
                     t.sem.release()
         for t in self.threads:
             if t.real is not None:
-                t.real.join(10)
+                t.real.join(120)          # generous: on an overloaded machine unwinding a few dozen threads can take seconds
                 if t.real.is_alive():
                     raise InternalError(f'virtual thread {t.name} did not terminate')
         if self.internal is not None:
